@@ -367,6 +367,8 @@ func check(e entry, a, b string) (string, string) {
 	ta, tb := twinName(a), twinValue(b)
 	if !e.usesName {
 		ta = twinValue(a)
+	} else if a == "" {
+		ta = "x" // the empty string is not a field name either: the field may be dropped like one with an invalid name
 	}
 	twin, pan2 := runEntry(e, ta, tb)
 	if pan2 != "" {
